@@ -73,6 +73,7 @@ type PathSample struct {
 }
 
 type Run struct {
+	pools  map[*value][]value // sync.Pool contents (most recently returned object first out)
 	eng    *Engine
 	ts     *TermStore
 	solver *Solver
